@@ -22,7 +22,9 @@ SRC_DIRS = ["libasn1common", "libasn1parser", "libasn1print", "libasn1fix",
 HASH_EXT = (".c", ".h", ".y", ".l", ".pl", ".asn1")
 
 VARIANTS = {
-    "asan": ["-O1", "-g", "-fsanitize=address,undefined",
+    # nonnull-attribute is left out: it only fires on zero-length memcmp/memcpy/fwrite calls with a
+    # NULL pointer of an empty string (DESIGN.md Corrections #2)
+    "asan": ["-O1", "-g", "-fsanitize=address,undefined", "-fno-sanitize=nonnull-attribute",
              "-fno-sanitize-recover=all", "-fno-omit-frame-pointer"],
     "plain": ["-O1", "-g", "-fno-omit-frame-pointer"],
     "reach": ["-O0", "-g", "-finstrument-functions", "-fno-omit-frame-pointer"],
